@@ -13,6 +13,8 @@
 //   /tmo/<ms>/<tag>          arms the response time-out and never replies (the framework answers 408)
 //   /tmoreply/<ms>/<tag>     arms the response time-out, then replies at once (the timer must be disarmed and released)
 //   /tmoasync/<ms>/<tag>     the ResponseWriter is handed to an application thread, which arms the response time-out there and never replies
+//   /tmoreplyasync/<ms>/<n>/<tag>  ... which arms the response time-out there and replies at once (200, pattern(tag, n)): armed and disarmed from that thread
+//   /astreamp/<k>/<n>/<tag>  like /astream, but the handler writes the first chunk (unflushed) before it moves the stream to the application thread
 //   /busy/<us>/<tag>         a slow handler: computes for <us> microseconds on the worker thread, then 200 "busy <tag>"
 //   /notify/<tag>            long-poll style: completes the oldest parked /tmo request from the worker thread (200 "notified"), then 200 "notify <n>"
 //   /never/<tag>             keeps the ResponseWriter and never replies
@@ -87,6 +89,8 @@ struct Job {
     int chunks = 0;
     size_t chunk_size = 0;
     u64 tag = 0;
+    bool reply_after_arm = false; // with tmo_ms: the application thread arms the time-out and replies at once (the timer is disarmed before the worker may have taken it from its queue)
+    int first_chunk = 0;          // stream: chunks the handler has already written (unflushed) before it handed the stream over
 };
 
 struct World {
@@ -249,6 +253,29 @@ public:
             Job j;
             j.writer = std::make_unique<Http::ResponseWriter>(std::move(response));
             j.tmo_ms = std::max(1L, atol(parts[1].c_str()));
+            std::lock_guard<std::mutex> g(w_->jobs_mtx);
+            w_->jobs.push_back(std::move(j));
+        } else if (kind == "tmoreplyasync" && parts.size() >= 4) {
+            Job j;
+            j.writer = std::make_unique<Http::ResponseWriter>(std::move(response));
+            j.tmo_ms = std::max(1L, atol(parts[1].c_str()));
+            j.body = actors::pattern(strtoull(parts[3].c_str(), nullptr, 10), static_cast<size_t>(atol(parts[2].c_str())));
+            j.rec = w_->new_send(fd, req.resource());
+            j.reply_after_arm = true;
+            std::lock_guard<std::mutex> g(w_->jobs_mtx);
+            w_->jobs.push_back(std::move(j));
+        } else if (kind == "astreamp" && parts.size() >= 4) {
+            // like /astream, but the handler writes the first chunk into the stream (no flush) before it hands the stream -
+            // by move, with pending data in a buffer that has grown - to the application thread
+            Job j;
+            j.chunks = atoi(parts[1].c_str());
+            j.chunk_size = static_cast<size_t>(atol(parts[2].c_str()));
+            j.tag = strtoull(parts[3].c_str(), nullptr, 10);
+            auto stream = response.stream(Http::Code::Ok);
+            std::string chunk = actors::pattern(j.tag, j.chunk_size);
+            stream.write(chunk.data(), static_cast<std::streamsize>(chunk.size()));
+            j.first_chunk = 1;
+            j.stream = std::make_unique<Http::ResponseStream>(std::move(stream));
             std::lock_guard<std::mutex> g(w_->jobs_mtx);
             w_->jobs.push_back(std::move(j));
         } else if (kind == "astream" && parts.size() >= 4) {
@@ -414,7 +441,8 @@ inline void World::start(const Opts& o)
             if (opts.app_delay_ns > 0 && opts.app_gather_ns == 0) sim::sleep_ns(opts.app_delay_ns);
             if (job.stream) {
                 try {
-                    for (int i = 0; i < job.chunks; ++i) {
+                    if (job.first_chunk > 0) job.stream->flush();
+                    for (int i = job.first_chunk; i < job.chunks; ++i) {
                         std::string chunk = actors::pattern(job.tag + static_cast<u64>(i), job.chunk_size);
                         job.stream->write(chunk.data(), static_cast<std::streamsize>(chunk.size()));
                         job.stream->flush();
@@ -432,9 +460,11 @@ inline void World::start(const Opts& o)
                 } catch (const std::exception& e) {
                     sim::logf("timeoutAfter threw: %s", e.what());
                 }
-                std::lock_guard<std::mutex> g(held_mtx);
-                held.push_back(std::move(job.writer));
-                continue;
+                if (!job.reply_after_arm) {
+                    std::lock_guard<std::mutex> g(held_mtx);
+                    held.push_back(std::move(job.writer));
+                    continue;
+                }
             }
             try {
                 World::track(job.writer->send(Http::Code::Ok, job.body), job.rec);
